@@ -122,3 +122,11 @@ Fixpoint fold_m {A B} (f : B -> A -> option B) (l : list A) (b : B) : option B :
   | x :: r => do b' <- f b x; fold_m f r b'
   end.
 Definition enumerate {A} (l : list A) : list (nat * A) := combine (seq 0 (length l)) l.
+
+(* std collections used as a FIFO queue and as a set that is never iterated: VecDeque<T> is a list
+   (push_back appends, pop_front takes the head); HashSet<T> of integers is a list without duplicates
+   (insert returns whether the element is new) *)
+Definition deque_pop_front {A} (q : list A) : list A * option A :=
+  match q with [] => ([], None) | x :: r => (r, Some x) end.
+Definition set_insert {A} (eqb : A -> A -> bool) (s : list A) (x : A) : list A * bool :=
+  if existsb (eqb x) s then (s, false) else (x :: s, true).
